@@ -478,12 +478,18 @@ func TestCheck(t *testing.T) {
 	}
 	e.Set("race_reports", int64(len(sites)))
 	for k, v := range counts {
+		if k == "logwalk_walks" {
+			// not a measure of work done: as many walks as happened to fit while the round's names were being registered (at least 3 per
+			// round by construction); it swings by 2x between identical runs, so it is reported in words and not counted as evaluations
+			e.Set("logwalk_walks_observed", fmt.Sprintf("%d concurrent walks in %d rounds (>= 3 per round by construction; the rest is timing)", v, counts["logwalk_rounds"]))
+			continue
+		}
 		e.Set(k, v)
 	}
 	// (the millions of cheap pool cycles and calc calls of the background load are reported separately, not counted here)
 	evals := counts["seq_pipelines"] + 2*counts["two_stream_scenarios"] + counts["gated_pipelines"] + counts["free_pipelines"] +
 		counts["registry_calls"] + counts["bytepool_seq_cases"] + counts["bytepool_resize_cases"] + counts["cron_name_calls"] + counts["cron_zone_calls"] +
-		counts["logwalk_new_names"] + counts["logwalk_walks"] + counts["crypto_shared_calls"] + logCompared +
+		counts["logwalk_new_names"] + 3*counts["logwalk_rounds"] + counts["crypto_shared_calls"] + logCompared +
 		counts["returned_container_calls"] + counts["shared_aead_calls"] + counts["shared_block_calls"]
 	e.Set("evaluations", evals)
 	e.Set("rule", "every case = one operation on the real code whose result is compared with the same operation run alone: "+
